@@ -11,6 +11,7 @@
 //	T3 go f(x) -> simrt.Go(func(){ f(x) })                              (concurrent packages)
 //	T4 simrt.Step() at function entries and loop heads                  (VM + interpreter packages)
 //	T5 simrt.Woke() after sleeps / channel operations, Sleeping before  (concurrent packages)
+//	T7 context.AfterFunc / time.AfterFunc -> simrt.AfterFunc / simrt.TimeAfterFunc (f runs as a task)
 //	T6 a select with >= 2 channel cases first tries them one at a time in an order chosen by
 //	   simrt.SelectFirst (Go's random pick among ready cases becomes a simulator choice)
 package main
@@ -58,6 +59,7 @@ type report struct {
 	GoSites    []string       `json:"go_sites"`
 	WakeSites  int            `json:"wake_sites"`
 	SelectSites int           `json:"select_sites"`
+	AfterFuncSites int        `json:"afterfunc_sites"`
 	StepSites  int            `json:"step_sites"`
 	SyncFiles  []string       `json:"sync_files"`
 	Warnings   []string       `json:"warnings"`
@@ -174,6 +176,42 @@ func (in *instr) run() bool {
 			}
 		}
 	}
+	// T7
+	touched := map[string]bool{}
+	ast.Inspect(in.file, func(n ast.Node) bool {
+		se, ok := n.(*ast.SelectorExpr)
+		if !ok || se.Sel.Name != "AfterFunc" {
+			return true
+		}
+		id, ok := se.X.(*ast.Ident)
+		if !ok {
+			return true
+		}
+		pn, ok := in.pkg.TypesInfo.Uses[id].(*types.PkgName)
+		if !ok {
+			return true
+		}
+		switch pn.Imported().Path() {
+		case "context":
+			se.X, se.Sel = ast.NewIdent(simName), ast.NewIdent("AfterFunc")
+		case "time":
+			se.X, se.Sel = ast.NewIdent(simName), ast.NewIdent("TimeAfterFunc")
+		default:
+			return true
+		}
+		touched[pn.Imported().Path()] = true
+		in.needSim = true
+		in.count++
+		in.rep.AfterFuncSites++
+		return true
+	})
+	defer func() {
+		for path := range touched {
+			if !astutil.UsesImport(in.file, path) {
+				astutil.DeleteImport(in.fset, in.file, path)
+			}
+		}
+	}()
 	for _, d := range in.file.Decls {
 		fd, ok := d.(*ast.FuncDecl)
 		if !ok || fd.Body == nil {
